@@ -48,4 +48,11 @@ def run(c, prog):
     rule_ids(c, prog)
     from . import C03_frame
     C03_frame.run(c, prog)
+    # the values clause (`an independent decoder recovers exactly the property values`): what each encoder arm writes is what the
+    # documented layout means — shared with C01 (scalar codecs = the document's formulas, arm grammars, rotation ids)
+    from . import C01_alg, C01_arm, C01_rot
+    a = core.Alias(c, "C03")
+    C01_alg.run(a, prog)
+    C01_rot.run(a, prog)
+    C01_arm.run(a, prog)
     c.not_decided += ["acceptance by an independent decoder (a run)", "PRNT order / exactly-once for every tree shape", "lz4/zstd length fields vs compressed payload (third party)"]
